@@ -37,6 +37,14 @@ void h_decode(void)
 	/* negative error | larger than supplied (incomplete) | exact length, never below the minimum */
 	VT_ASSERT(r < 0 || (uint32_t)r > sz || r >= RF_WAVHEADER_MIN_SIZE);
 	if (r >= 0 && (uint32_t)r <= sz) {
+		/* "the exact number of bytes the header occupies": the first r bytes on their own are the same header -
+		 * same length, same structure (so r neither under- nor over-states what the decoder consumed) */
+		{
+			rf_wavheader_t w1;
+			int r1 = rf_wavheader_decode(p, (unsigned)r, &w1);
+			VT_ASSERT(r1 == r);
+			VT_ASSERT(memcmp(&w1, &wh, sizeof(wh)) == 0);
+		}
 		/* truncating an accepted header at any point never yields success */
 		uint32_t k = in.k;
 		__CPROVER_assume(k < (uint32_t)r);
